@@ -11,6 +11,13 @@ import vcheck as V
 
 PROPS = {}
 
+# the theorems each property file must state (committed list; a theorem that disappears is a broken proof)
+THEOREMS = {}
+for _l in open(os.path.join(V.COQ, "Properties", "THEOREMS.txt")):
+    if _l.strip():
+        _p, _t = _l.split()
+        THEOREMS.setdefault(_p, []).append(_t)
+
 # the standard library's own axioms that Flocq / Reals rely on (C09 only)
 FLOCQ_AXIOMS = ("ClassicalDedekindReals.sig_forall_dec", "ClassicalDedekindReals.sig_not_dec",
                 "FunctionalExtensionality.functional_extensionality_dep", "Classical_Prop.classic")
@@ -138,7 +145,7 @@ def model_moves_only(line):
 
 
 # ---------------------------------------------------------------- C14
-@prop("C14", "C14.v", ["C14_mirror", "C14_side", "C14_depends_only_on", "C14_bounded"])
+@prop("C14", "C14.v", THEOREMS["C14"])
 def run_c14(o, tier, rng, prep):
     n = 400 if tier == "quick" else 20000
     fens = gens.random_placements(rng, n)
@@ -196,7 +203,7 @@ def geometry_positions(rng, tier):
     return [f for f, _, _ in legal]
 
 
-@prop("C01", "C01.v", ["C01_probe_sees_enemy_king", "C01_castle_conditions"])
+@prop("C01", "C01.v", THEOREMS["C01"])
 def run_c01(o, tier, rng, prep):
     corpus = [l.strip() for l in open(os.path.join(V.VERIF, "corpus", "c01_regress.txt")) if l.strip() and not l.startswith("#")]
     geo = geometry_positions(rng, tier)
@@ -214,7 +221,7 @@ def run_c01(o, tier, rng, prep):
     o.rule = "legal positions (accepted by the specification's legal_position): regression corpus, enumerated castling geometry (4 castling kinds x 6 enemy kinds incl. king x every square, blockers), en-passant pins/evasions, promotions incl. corner captures, and every prefix of random legal games generated by the specification; non-trivial = castling, promotion or en passant available, or the mover in check"
 
 
-@prop("C02", "C02.v", ["C02_ordinary_descriptor", "C02_castle_descriptor", "C02_en_passant_descriptor", "C02_promotion_descriptor"])
+@prop("C02", "C02.v", THEOREMS["C02"])
 def run_c02(o, tier, rng, prep):
     games = game_pool(rng, 40 if tier == "quick" else 1500, 60)
     geo = geometry_positions(rng, tier)
@@ -237,7 +244,7 @@ def run_c02(o, tier, rng, prep):
     o.rule = "chains of 0-3 generated successors (so inherited fields are exercised) from prefixes of specification-generated games and geometry families; every successor's full record, descriptor and printed bestmove text compared; non-trivial as for C01"
 
 
-@prop("C13", "C13.v", ["C13_capture_targets_are_enemy", "C13_en_passant_targets_recorded_square", "C13_same_successor_function"])
+@prop("C13", "C13.v", THEOREMS["C13"])
 def run_c13(o, tier, rng, prep):
     games = game_pool(rng, 40 if tier == "quick" else 1500, 60)
     pos = positions_of_games(games)
@@ -283,7 +290,7 @@ def shuffle_games(rng, n, cycles_max):
     return out
 
 
-@prop("C04", "C04.v", ["C04_contains_corner", "C04_castle_strings_match", "C04_point_text_roundtrip"])
+@prop("C04", "C04.v", THEOREMS["C04"])
 def run_c04(o, tier, rng, prep):
     games = game_pool(rng, 40 if tier == "quick" else 1500, 60)
     tags_hist(o, games)
@@ -318,7 +325,7 @@ def run_c04(o, tier, rng, prep):
     o.rule = "position commands for prefixes of specification-generated legal games from 40 starts (castling, en passant, promotions, corner rook moves/captures counted in input_distribution); plus generator-versus-text replay of every successor; non-trivial = at least one move replayed"
 
 
-@prop("C05", "C05.v", ["C05_swap_color_keeps_invariant", "C05_castling_rights_keep_invariant", "C05_unset_en_passant_keeps_invariant", "C05_set_en_passant_keeps_invariant", "C05_hash_of_written_square", "C05_concrete_piece_words", "C05_concrete_other_words", "C05_nonzero_word_changes_key"])
+@prop("C05", "C05.v", THEOREMS["C05"])
 def run_c05(o, tier, rng, prep):
     games = game_pool(rng, 40 if tier == "quick" else 1500, 60)
     cases = []
@@ -350,7 +357,7 @@ def run_c05(o, tier, rng, prep):
     o.rule = "every 1st/5th prefix of specification-generated games, reached three ways (FEN of the position, position command, chain of generated successors); each key compared with the specification's from-scratch hash and with the other two"
 
 
-@prop("C10", "C10.v", ["C10_counts_exact", "C10_threefold_iff", "C10_draw_value", "C10_add_remove_restores"])
+@prop("C10", "C10.v", THEOREMS["C10"])
 def run_c10(o, tier, rng, prep):
     cases = []
     n = 150 if tier == "quick" else 4000
@@ -417,7 +424,7 @@ def run_search_repetition(o, tier, rng):
 
 
 # ---------------------------------------------------------------- C06
-@prop("C06", "C06.v", ["C06_walk_finds_first_piece", "C06_walk_complete", "C06_walk_terminates", "C06_directions_are_unit"])
+@prop("C06", "C06.v", THEOREMS["C06"])
 def run_c06(o, tier, rng, prep):
     if tier == "quick":
         # exhaustive king square x attacker kind x attacker square (24192 placements), sampled blockers
@@ -436,7 +443,7 @@ def run_c06(o, tier, rng, prep):
 
 
 # ---------------------------------------------------------------- C15
-@prop("C15", "C15.v", ["C15_total", "C15_counters_32_bits"], binary=True)
+@prop("C15", "C15.v", THEOREMS["C15"], binary=True)
 def run_c15(o, tier, rng, prep):
     games = game_pool(rng, 40 if tier == "quick" else 1500, 60)
     legal = positions_of_games(games)
@@ -702,7 +709,7 @@ def sweep_expiry(o, tier, rng, want_c18=False, hunt=False):
     return out
 
 
-@prop("C07", "C07.v", ["C07_handed_back_is_root_move", "C07_expired_node_aborts", "C07_clock_monotone", "C07_abort_value_not_a_cp_score", "C07_table_add_remove"])
+@prop("C07", "C07.v", THEOREMS["C07"])
 def run_c07(o, tier, rng, prep):
     r = sweep_expiry(o, tier, rng)
     o.oblige("(a) every handed-back move is a legal root move, and one is always handed back", r["a"])
@@ -715,7 +722,7 @@ def run_c07(o, tier, rng, prep):
     o.assumptions.append("two-thread composition: after the join added by the F10 repair the I/O thread only consumes sends; FIFO delivery of mpsc assumed")
 
 
-@prop("C18", "C18.v", ["C18_info_line_shape", "C18_cp_inside_window", "C18_mate_number_nonzero", "C18_abort_value_never_cp"], binary=True)
+@prop("C18", "C18.v", THEOREMS["C18"], binary=True)
 def run_c18(o, tier, rng, prep):
     r = sweep_expiry(o, tier, rng, want_c18=True)
     o.oblige("info lines well-formed, depth monotone, scores strictly increasing within a depth, bounded, first pv move legal -- for every expiry index", r["c18"] and r["b"])
@@ -789,7 +796,7 @@ def impl_only(cases):
     return res
 
 
-@prop("C12", "C12.v", ["C12_oracle_ordering_is_a_sorted_permutation", "C12_spec_repetition_is_draw", "C12_spec_no_move_is_mate_or_stalemate"])
+@prop("C12", "C12.v", THEOREMS["C12"])
 def run_c12(o, tier, rng, prep):
     pos = small_positions(rng, 40 if tier == "quick" else 600, max_pieces=9)
     pos = pos[: (24 if tier == "quick" else 400)]
@@ -892,7 +899,7 @@ MATE_FENS = [
 ]
 
 
-@prop("C11", "C11.v", ["C11_mate_number_nonzero", "C11_mate_number_of_ply_win", "C11_mate_number_of_ply_loss", "C11_static_value_is_not_a_mate"])
+@prop("C11", "C11.v", THEOREMS["C11"])
 def run_c11(o, tier, rng, prep):
     legal = gens.filter_legal(MATE_FENS)
     roots = [(f, [], f) for f, n, _ in legal if n > 0]
@@ -1007,7 +1014,7 @@ def exact_slice_bounds(clock, inc, mtg):
     return clock, inc, mtg
 
 
-@prop("C09", "C09.v", ["C09_own_side_only", "C09_constants", "C09_instances"], axioms=FLOCQ_AXIOMS, binary=True)
+@prop("C09", "C09.v", THEOREMS["C09"], axioms=FLOCQ_AXIOMS, binary=True)
 def run_c09(o, tier, rng, prep):
     from fractions import Fraction
     grid = [-2 ** 127, -2 ** 64, -1000, -1, 0, 1, 50, 99, 100, 101, 102, 103, 104, 150, 1000, 59999, 300000,
@@ -1208,7 +1215,7 @@ TERMINAL_SESSIONS = [
 ]
 
 
-@prop("C03", "C03.v", ["C03_sends_are_root_moves", "C03_answer_is_a_send", "C03_terminal_answer"], binary=True)
+@prop("C03", "C03.v", THEOREMS["C03"], binary=True)
 def run_c03(o, tier, rng, prep):
     import blackbox
     n = 30 if tier == "quick" else 400
@@ -1355,7 +1362,7 @@ def session_model_corr(o, tier, rng):
     o.oblige("every go-step search hands a move back (the polling loop ends iff something was sent)", oks)
 
 
-@prop("C08", "C08.v", ["C08_terminal_is_answered", "C08_answered_iff_sent", "C08_isready_after"], binary=True)
+@prop("C08", "C08.v", THEOREMS["C08"], binary=True)
 def run_c08(o, tier, rng, prep):
     import blackbox
     n = 16 if tier == "quick" else 200
@@ -1440,7 +1447,7 @@ def run_c08(o, tier, rng, prep):
     o.assumptions.append("timing and thread liveness are sampled, not proved")
 
 
-@prop("C16", "C16.v", ["C16_position_resets", "C16_other_commands_stateless", "C16_go_function"], binary=True)
+@prop("C16", "C16.v", THEOREMS["C16"], binary=True)
 def run_c16(o, tier, rng, prep):
     import blackbox
     n = 10 if tier == "quick" else 120
@@ -1554,7 +1561,7 @@ def run_c16(o, tier, rng, prep):
     o.assumptions.append("timed runs are sampled under real scheduling")
 
 
-@prop("C17", "C17.v", ["C17_unknown_ignored", "C17_isready", "C17_eof_exits", "C17_quit_exits", "C17_exited_is_final"], binary=True)
+@prop("C17", "C17.v", THEOREMS["C17"], binary=True)
 def run_c17(o, tier, rng, prep):
     import blackbox
     # clean_input against the words of the line
